@@ -136,5 +136,13 @@ func (r *C06RecConn) Write(p []byte) (int, error) {
 	return n, err
 }
 
-func (r *C06RecConn) Received() []byte { r.mu.Lock(); defer r.mu.Unlock(); return append([]byte(nil), r.in...) }
-func (r *C06RecConn) Written() []byte  { r.mu.Lock(); defer r.mu.Unlock(); return append([]byte(nil), r.out...) }
+func (r *C06RecConn) Received() []byte {
+	r.mu.Lock()
+	defer r.mu.Unlock()
+	return append([]byte(nil), r.in...)
+}
+func (r *C06RecConn) Written() []byte {
+	r.mu.Lock()
+	defer r.mu.Unlock()
+	return append([]byte(nil), r.out...)
+}
